@@ -256,7 +256,7 @@ pub fn indep_pairs(case: &Case) -> Vec<Value> {
         let part = Case { id: format!("{}/{}", case.id, sec), files, opening, tags: case.tags.clone(), hdr: Vec::new(), raw: Vec::new() };
         let sp = ledger_segments(&part);
         if let (Some(a), Some(b)) = (seg_for(&sp, sec), seg_for(&whole, sec)) {
-            if a["status"] != "skipped" && b["status"] != "skipped" {
+            if a["status"] != "skipped" && b["status"] != "skipped" && a["status"] != "dupsplit" && b["status"] != "dupsplit" {
                 out.push(json!({"id": case.id, "kind": "same", "cls": "independent", "a": a, "b": b, "k": 0, "post": dzero(), "pre": dzero(), "perAff": false}));
             }
         }
